@@ -3,7 +3,6 @@ package props
 import (
 	"fmt"
 	"math"
-	"sort"
 	"testing"
 
 	"go.1password.io/spg"
@@ -102,41 +101,22 @@ func c04ShippedRun(c c04Shipped) error {
 	if n != len(kept) {
 		return fmt.Errorf("shipped list %s: Size() = %d, want %d", c.List, n, len(kept))
 	}
-	r := spg.NewWLRecipe(1, wl)
-	seen := map[string]bool{}
-	hi := c.Hi
-	if hi > n {
-		hi = n
+	// every word of the list, and nothing else, comes out of one-word
+	// passwords (read without assuming how the word is drawn: pseudo-random
+	// streams until every word has been seen with overwhelming probability;
+	// that every word is equally likely is the frequency and tree checks' part)
+	got, err := readKept(wl)
+	if err != nil {
+		return err
 	}
-	for j := c.Lo; j < hi; j++ {
-		jj := uint32(j) // every draw steered to alternative j, wherever the word draw sits
-		o := callForced(nil, func(int, uint32) uint32 { return jj }, 3, r.Generate)
-		if e := o.S.IndexLevelOK(); e != nil {
-			return &ev.Inc{Why: e.Error()}
-		}
-		if o.Pw == nil || o.Panic != nil {
-			return fmt.Errorf("index %d: generation failed (%v, %v)", j, o.Err, o.Panic)
-		}
-		wordDraw := false
-		for _, d := range o.S.Draws {
-			if int(d.Bound) == n {
-				wordDraw = true
-			}
-		}
-		if !wordDraw && n > 1 {
-			return fmt.Errorf("one-word password drew %v, none of them over the %d words of the list", o.S.Draws, n)
-		}
-		a := o.Pw.String()
-		if seen[a] {
-			return fmt.Errorf("two indices give the word %q", a)
-		}
-		seen[a] = true
-		k := sort.SearchStrings(kept, a)
-		if k >= len(kept) || kept[k] != a {
-			return fmt.Errorf("index %d gives %q, not a list word", j, a)
+	if len(got) != len(kept) {
+		return fmt.Errorf("shipped list %s: one-word passwords yield %d distinct words, the list has %d", c.List, len(got), len(kept))
+	}
+	for i := range kept {
+		if got[i] != kept[i] {
+			return fmt.Errorf("shipped list %s: one-word passwords yield %q, the list has %q at that place (sorted)", c.List, got[i], kept[i])
 		}
 	}
-	ev.Leaves(int64(hi - c.Lo))
 	// Length 2: corners
 	r2 := spg.NewWLRecipe(2, wl)
 	for _, ch := range [][]uint32{{0, 0}, {0, uint32(n - 1)}, {uint32(n - 1), 0}, {uint32(n - 1), uint32(n - 1)}} {
@@ -257,11 +237,11 @@ func TestC04(t *testing.T) {
 		return supWL{W: w, Key: rapid.Uint64().Draw(t, "key")}
 	}, c04FreqRun)
 	ev.Fixed(t, "c04_shipped", func(do func(c04Shipped) bool) {
-		// split the index range of both lists over the shards
-		for _, l := range []string{"words", "syllables"} {
-			n := 18400
-			per := (n + ev.Cfg.NShards - 1) / ev.Cfg.NShards
-			do(c04Shipped{l, ev.Cfg.Shard * per, (ev.Cfg.Shard + 1) * per})
+		// one list per shard
+		for i, l := range []string{"words", "syllables"} {
+			if ev.Cfg.Shard == i%ev.Cfg.NShards {
+				do(c04Shipped{l, 0, 1 << 30})
+			}
 		}
 	}, c04ShippedRun)
 }
